@@ -43,6 +43,28 @@ func addrComps(a ssa.Value) []string {
 	return out
 }
 
+// sliceArgComps: components a write through slice value v may touch (follows slicing of arrays syntactically).
+func sliceArgComps(v ssa.Value) []string {
+	for {
+		sl, ok := v.(*ssa.Slice)
+		if !ok {
+			break
+		}
+		if isSlice(sl.X.Type()) {
+			v = sl.X
+			continue
+		}
+		if _, isPtr := sl.X.Type().Underlying().(*types.Pointer); isPtr {
+			return addrComps(sl.X)
+		}
+		break
+	}
+	if isSlice(v.Type()) {
+		return elemComps(v.Type())
+	}
+	return nil
+}
+
 // elemComps: components of the element memory of a slice type.
 func elemComps(t types.Type) []string {
 	et := sliceElem(t)
@@ -107,11 +129,8 @@ func (e *Env) modsOfCall(c *ssa.CallCommon, ms *modSet, visiting map[*ssa.Functi
 		switch b.Name() {
 		case "append", "copy":
 			if len(c.Args) > 0 {
-				t := c.Args[0].Type()
-				if isSlice(t) {
-					for _, k := range elemComps(t) {
-						ms.comps[k] = true
-					}
+				for _, k := range sliceArgComps(c.Args[0]) {
+					ms.comps[k] = true
 				}
 			}
 		case "delete", "clear":
@@ -623,7 +642,9 @@ func (fr *frame) asIdx(v ssa.Value) Term {
 	if !ok {
 		return fr.ft.c.Fresh("idx", SIdx)
 	}
-	return extendTo(x.L[0], w, signed, 64)
+	t := extendTo(x.L[0], w, signed, 64)
+	fr.ft.c.AddInst(t)
+	return t
 }
 
 func extendTo(t Term, w int, signed bool, to int) Term {
@@ -649,6 +670,7 @@ func (fr *frame) indexAddr(x *ssa.IndexAddr) {
 		fr.oblige("idx", text, x.Pos(), app(SBool, "bvult", i, base.sLen()))
 		bk := base.backing()
 		ai := ft.c.Define("ai", app(SIdx, "bvadd", base.sOff(), i))
+		ft.c.AddInst(ai)
 		nlv := bk.extend(Step{Idx: &ai}, et)
 		fr.vals[x] = &Val{T: x.Type(), L: []Term{base.sRef()}, LV: nlv}
 		return
@@ -794,6 +816,13 @@ func (fr *frame) storeAt(addr *Val, v *Val, pos token.Pos) {
 	ft.store(fr.cur.mem, lv, vv)
 	for _, c := range compsOf(lv) {
 		fr.checkLoopMod(c)
+	}
+	if ix := lv.idxs(); len(ix) > 0 && (strings.HasPrefix(lv.Root, "E:")) && lv.Steps[0].Idx != nil {
+		lo := ix[0]
+		hi := app(SIdx, "bvadd", lo, idxInt(1))
+		fr.frameCheckRange(compsOf(lv), lv.Ref, &lo, &hi, "store", pos)
+	} else {
+		fr.frameCheck(compsOf(lv), lv.Ref, "store", pos)
 	}
 }
 
